@@ -98,6 +98,7 @@ func ledgerLine(st childStats) string {
 	for _, x := range l {
 		o.I(x)
 	}
+	o.B(st.McastWr > 0) // multicast writers allocated
 	return o.String()
 }
 
@@ -204,7 +205,7 @@ func settleN(ch *child, expectConns int, need int) (childStats, error) {
 		if err != nil {
 			return cur, err
 		}
-		if ledgerOf(cur) == ledgerOf(prev) && cur.ConnClose == prev.ConnClose && cur.SessClose == prev.SessClose {
+		if ledgerOf(cur) == ledgerOf(prev) && cur.McastWr == prev.McastWr && cur.ConnClose == prev.ConnClose && cur.SessClose == prev.SessClose {
 			stable++
 		} else {
 			stable = 0
@@ -945,8 +946,8 @@ func main() {
 func quickConfigs() []childCfg {
 	return []childCfg{
 		{Handlers: "DASPRUGT", UDP: true, Mcast: true},
-		{Handlers: "DASPRUGT", UDP: false},
-		{Handlers: "DSPUG", UDP: true},
+		{Handlers: "DASPRUGT", UDP: false, Mcast: true},
+		{Handlers: "DSPUG", UDP: true, Mcast: true},
 		{Handlers: "ASRU", UDP: true},
 		{Handlers: "DAPR", UDP: false},
 		{Handlers: "", UDP: false},
@@ -957,7 +958,7 @@ func thoroughConfigs() []childCfg {
 	var out []childCfg
 	for _, h := range handlerSubsets {
 		for _, udp := range []bool{true, false} {
-			out = append(out, childCfg{Handlers: h, UDP: udp, Mcast: udp && (h == "DASPRUGT" || h == "DSPUG")})
+			out = append(out, childCfg{Handlers: h, UDP: udp, Mcast: strings.Contains(h, "S") && (udp || h == "DASPRUGT" || h == "DSPUG")})
 		}
 	}
 	for _, h := range []string{"DASPRUGT", "DSPUG", "ASRU"} {
